@@ -253,6 +253,24 @@ def run_pareto_case(ctx, case):
                               lambda d_: np.asarray(su.pareto_front(d_, ori)), [data],
                               got, case,
                               np.random.default_rng(digest(data, ori) % 2 ** 32), n=1)
+        if data.size and not hasnan:
+            # the same points as whole numbers in a narrow integer type (scores read
+            # from an image, counts): zeros and the ends of the type included
+            di = np.round(data * 2)
+            di = di - di.min()
+            if di.max() <= 255:
+                dt_ = [np.uint8, np.uint16, np.int16, np.uint32][n % 4]
+                ctx.tag("pareto:unsigned-or-narrow-integers")
+                ctx.api("pareto_front")
+                try:
+                    gi = np.asarray(su.pareto_front(di.astype(dt_), ori))
+                    ri = pareto_ref(di, ori)
+                    ctx.check("pareto.integer-data", bool(np.array_equal(gi.astype(int), ri)),
+                              "pareto_front|definition|integer-typed-data", case,
+                              lambda: {"orientation": ori, "dtype": np.dtype(dt_).name,
+                                       "got": gi.tolist(), "ref": ri.tolist()})
+                except Exception as e:
+                    ctx.extra["pareto-integer-refused"] += 1
         neg = np.asarray(su.pareto_front(-data, -ori))
         ctx.check("pareto.orientation-is-negation", bool(np.array_equal(neg, got)),
                   "pareto_front|orientation", case,
@@ -462,6 +480,13 @@ def run_boxby_case(ctx, case):
                 idx = pd.date_range("2001-01-01", periods=n_, freq="D")
             elif ik == "labels":
                 idx = [f"row{k}" for k in range(n_)]
+            elif ik == "repeated":
+                # two records concatenated without renumbering: every label twice,
+                # the two halves in different categories more often than not
+                idx = np.concatenate([np.arange(n_ - n_ // 2), np.arange(n_ // 2)])
+            elif ik == "repeated-dates":
+                idx = pd.date_range("2001-01-01", periods=n_, freq="D")[
+                    np.arange(n_) // 3]
             if idx is not None:
                 ctx.tag("box:by-shared-non-default-index")
             bp = boxplot.Boxplot(pd.Series(v, index=idx), by=pd.Series(by, index=idx),
@@ -663,7 +688,8 @@ def run(ctx):
             run_boxby_case(ctx, {"kind": "boxby", "values": v, "by": by, "box": bc,
                                  "whisk": wc,
                                  "index": ["default", "permuted", "gapped", "shifted",
-                                           "dates", "labels"][it0 % 6]})
+                                           "dates", "labels", "repeated",
+                                           "repeated-dates"][it0 % 8]})
         # violin
         if it0 % 3 == 0:
             nv = [5, 101, 151, 30, 499, 120, 3, 250, 500, 501, 640, 1000, 1025,
